@@ -13,7 +13,7 @@ import warnings
 
 from . import sut
 from .rng import sub, digest
-from .party import Party, SchedulerCrash
+from .party import Party, SchedulerCrash, SchedulerInterrupt
 from .build import build_sim
 from .world import last_event_time, valid_refill
 
@@ -394,7 +394,7 @@ def _run_world(sc, observe=0, snapshot=True, setup=None, mutate_constraints=True
                             ctx.sim.event_queue.add_events(batch)
                         continue
                     break
-                except SchedulerCrash as c:
+                except (SchedulerCrash, SchedulerInterrupt) as c:
                     mode = c.fault.get("resume", "rerun")
                     nw_ = ctx.sim.network
                     if mode != "rerun" and hasattr(nw_, "waiting_queue") and (
@@ -477,7 +477,7 @@ def _run_world(sc, observe=0, snapshot=True, setup=None, mutate_constraints=True
                 try:
                     b_["sim"].run()
                     b_["exc"] = None
-                except (StepCapExceeded, SchedulerCrash) as e:
+                except (StepCapExceeded, SchedulerCrash, SchedulerInterrupt) as e:
                     b_["exc"] = e
                 except HarnessError:
                     raise
